@@ -5,8 +5,10 @@
      * the abstract monitor the compilation implements decides the PDDL3 semantics of all five operators.
      * the PLAN-LEVEL verdict equation for problems whose constraints are all `always phi` ([C06_LA_tcr_always_plan]).
      * the PLAN-LEVEL verdict equation for ONE `sometime phi` constraint with its monitoring fluent ([C06_LA_tcr_sometime_plan]).
-   NOT proved (kept as [C06_LA_tcr_plan_goal]): the plan-level verdict equation for at-most-once / sometime-before /
-   sometime-after and for several constraints at once (needs the
+     * the PLAN-LEVEL verdict equation for ONE `at-most-once phi` constraint ([C06_LA_tcr_amo_plan]).
+     * the PLAN-LEVEL verdict equation for ONE `sometime-before phi psi` constraint ([C06_LA_tcr_sb_plan]).
+   NOT proved (kept as [C06_LA_tcr_plan_goal]): the plan-level verdict equation for sometime-after and for several
+   constraints at once, the link to SimCheck.valid (needs the
    embedding of the monitor into problems with the extra monitoring fluents). *)
 From Coq Require Import List ZArith NArith QArith Qcanon Bool.
 Import ListNotations.
@@ -288,6 +290,181 @@ Proof.
   - reflexivity.
   - exact I1.
   - exact I2.
+Qed.
+
+(* PLAN LEVEL for one `at-most-once phi` constraint (hypotheses as in C06_LA_tcr_sometime_plan; fk = mon 0 is the
+   monitoring fluent "seen-phi-0").  The compiled problem - no trajectory constraint; the actions that touch phi got the
+   precondition `simplify(Or(Not R, Not fk, phi))` and the effect `if R then fk := true` with R = simplify(regress phi a);
+   actions whose preconditions became FALSE are left out; the goal is unchanged - accepts exactly the valid plans of P
+   every step s -> t of which passes the at-most-once check "phi false in t, or phi never held up to s, or phi holds in
+   s" ([amo_chk], Compilers/LayerA_Tcr.v; by C06_LA_tcr_monitor_decides this check is SimCheck's mon_amo on the visited
+   states).  Invariant: the states agree off fk, and fk = "phi held in some state so far". *)
+Theorem C06_LA_tcr_amo_plan :
+  forall (smp sub0 : expr -> expr) (mon : nat -> N) (phi : expr) (P : problem) (G : state -> Prop),
+    smp_exact smp -> unique_ids P -> gproblem P = true -> gform phi = true -> gbool P phi = true ->
+    tcr_fresh1 smp (mon 0) P phi = true ->
+    (forall s aid a args t, G s -> lookup_action P aid = Some a -> spec_step false P s a args = Some t -> G t) ->
+    (forall s aid a, G s -> lookup_action P aid = Some a -> reg_ok P s a = true) ->
+    (forall s, G s -> gdef s phi = true) ->
+    forall P', tcr_compile smp sub0 mon [EAtMostOnce phi] P = Some P' ->
+    forall s0 s0' pi, G s0 -> agree_off (mon 0) s0 s0' ->
+      s0' (mon 0) [] = Some (VBool (holds false (mk_interp P s0 []) phi)) ->
+      valid_plan false P' s0' pi =
+      valid_plan false P s0 pi && amo_chk P phi (holds false (mk_interp P s0 []) phi) s0 pi.
+Proof.
+  intros smp sub0 mon phi P G H1 H2 H3 H4 H5 H6 H7 H8 H9 P1 H10 s0 s0' pi H11 H12 H13.
+  exact (tcr_amo_plan smp sub0 mon phi P G H1 H2 H3 H4 H5 H6 H7 H8 H9 P1 H10 s0 s0' pi H11 H12 H13).
+Qed.
+Print Assumptions C06_LA_tcr_amo_plan.
+
+(* the initial state the compiler builds satisfies the two conditions on s0' when the initial evaluation is exact *)
+Theorem C06_LA_tcr_amo_init :
+  forall (smp sub0 : expr -> expr) (mon : nat -> N) (phi : expr) (P : problem) (s0 : state),
+    is_true (smp (sub0 phi)) = holds false (mk_interp P s0 []) phi ->
+    agree_off (mon 0) s0 (tcr_init smp sub0 mon [EAtMostOnce phi] s0) /\
+    tcr_init smp sub0 mon [EAtMostOnce phi] s0 (mon 0) [] = Some (VBool (holds false (mk_interp P s0 []) phi)).
+Proof. exact tcr_init_amo. Qed.
+Print Assumptions C06_LA_tcr_amo_init.
+
+Module TcrAmo.
+  Definition bfd (f : N) : fdecl := {| fd_id := f; fd_sig := []; fd_ty := FBool |}.
+  Definition fl0 (f : N) : expr := EFluent f [].
+  Definition setf (f : N) (b : bool) : action :=
+    {| a_params := []; a_pre := [];
+       a_effs := [{| e_fl := f; e_args := []; e_val := EBool b; e_cond := EBool true; e_kind := KAssign; e_vars := [];
+                     e_isbool := true |}] |}.
+  (* fluents f (0) and h (1); actions 0: f off, 1: f on, 2: goal h; constraint at-most-once f; f true initially *)
+  Definition P0 : problem :=
+    {| p_objs := []; p_ifun := []; p_fluents := [bfd 0; bfd 1];
+       p_actions := [(0%N, setf 0 false); (1%N, setf 0 true); (2%N, setf 1 true)]; p_goals := [fl0 1]; p_invs := [] |}.
+  Definition idf (e : expr) : expr := e.
+  Definition mon0 (k : nat) : N := 9%N.
+  Definition s0 : state := fun f _ => Some (VBool (f =? 0)%N).
+  (* sub0: the constraint formula f is TRUE initially *)
+  Definition sub (e : expr) : expr := match e with EFluent 0%N [] => EBool true | _ => e end.
+  Definition s0' : state := tcr_init idf sub mon0 [EAtMostOnce (fl0 0)] s0.
+  Definition P0' : problem := match tcr_compile idf sub mon0 [EAtMostOnce (fl0 0)] P0 with Some x => x | None => P0 end.
+  Definition G0 (s : state) : Prop := gdef s (fl0 0) = true.
+End TcrAmo.
+
+Example C06_LA_tcr_amo_plan_nonvacuous :
+  (forall pi, valid_plan false TcrAmo.P0' TcrAmo.s0' pi =
+              valid_plan false TcrAmo.P0 TcrAmo.s0 pi && amo_chk TcrAmo.P0 (TcrAmo.fl0 0) true TcrAmo.s0 pi) /\
+  valid_plan false TcrAmo.P0 TcrAmo.s0 [(0%N, []); (1%N, []); (2%N, [])] = true /\
+  valid_plan false TcrAmo.P0' TcrAmo.s0' [(0%N, []); (1%N, []); (2%N, [])] = false /\
+  valid_plan false TcrAmo.P0' TcrAmo.s0' [(0%N, []); (2%N, [])] = true.
+Proof.
+  split; [|repeat split; vm_compute; reflexivity].
+  intros pi.
+  assert (Hact : forall aid a, lookup_action TcrAmo.P0 aid = Some a ->
+            a = TcrAmo.setf 0 false \/ a = TcrAmo.setf 0 true \/ a = TcrAmo.setf 1 true).
+  { intros aid a H. unfold lookup_action in H. cbn [TcrAmo.P0 p_actions lookupN] in H.
+    destruct (aid =? 0)%N; [inversion H; auto|]. destruct (aid =? 1)%N; [inversion H; auto|].
+    destruct (aid =? 2)%N; [inversion H; auto | discriminate]. }
+  destruct (C06_LA_tcr_amo_init TcrAmo.idf TcrAmo.sub TcrAmo.mon0 (TcrAmo.fl0 0) TcrAmo.P0 TcrAmo.s0 eq_refl) as [I1 I2].
+  change true with (holds false (mk_interp TcrAmo.P0 TcrAmo.s0 []) (TcrAmo.fl0 0)) at 1.
+  apply (C06_LA_tcr_amo_plan TcrAmo.idf TcrAmo.sub TcrAmo.mon0 (TcrAmo.fl0 0) TcrAmo.P0 TcrAmo.G0).
+  - intros e I. reflexivity.
+  - unfold unique_ids. cbn. repeat constructor; cbn; intuition discriminate.
+  - reflexivity.
+  - reflexivity.
+  - reflexivity.
+  - vm_compute. reflexivity.
+  - intros s aid a args t Gs Hlk Hst.
+    assert (Hga : gaction TcrAmo.P0 a = true) by (destruct (Hact aid a Hlk) as [-> | [-> | ->]]; reflexivity).
+    assert (Hrg : reg_ok TcrAmo.P0 s a = true) by (destruct (Hact aid a Hlk) as [-> | [-> | ->]]; reflexivity).
+    destruct (regression_step TcrAmo.P0 s a args t (TcrAmo.fl0 0) Hga Hrg Hst eq_refl eq_refl Gs) as (_ & _ & D).
+    unfold TcrAmo.G0. unfold isB in D. cbn in D. cbn. exact D.
+  - intros s aid a _ Hlk. destruct (Hact aid a Hlk) as [-> | [-> | ->]]; reflexivity.
+  - intros s Gs. exact Gs.
+  - reflexivity.
+  - reflexivity.
+  - exact I1.
+  - exact I2.
+Qed.
+
+(* PLAN LEVEL for one `sometime-before phi psi` constraint (hypotheses as in C06_LA_tcr_sometime_plan, for phi and psi;
+   fk = mon 0 is the monitoring fluent "seen-psi-0"; phi is false in s0 - otherwise the compiler refuses the problem).
+   The compiled problem - the actions that touch the constraint got the precondition `simplify(Or(Not R_phi, fk))` and the
+   effect `if R_psi then fk := true` - accepts exactly the valid plans of P every step s -> t of which passes the check
+   "phi false in t, or psi held in some state up to s" ([sb_chk]; = SimCheck's mon_sb on the visited states).
+   Invariants: the states agree off fk, fk = "psi held so far", and phi or psi in the current state imply fk. *)
+Theorem C06_LA_tcr_sb_plan :
+  forall (smp sub0 : expr -> expr) (mon : nat -> N) (phi psi : expr) (P : problem) (G : state -> Prop),
+    smp_exact smp -> unique_ids P -> gproblem P = true ->
+    gform phi = true -> gbool P phi = true -> gform psi = true -> gbool P psi = true ->
+    tcr_fresh1 smp (mon 0) P phi = true -> tcr_fresh1 smp (mon 0) P psi = true ->
+    (forall s aid a args t, G s -> lookup_action P aid = Some a -> spec_step false P s a args = Some t -> G t) ->
+    (forall s aid a, G s -> lookup_action P aid = Some a -> reg_ok P s a = true) ->
+    (forall s, G s -> gdef s phi = true) -> (forall s, G s -> gdef s psi = true) ->
+    forall P', tcr_compile smp sub0 mon [ESometimeBefore phi psi] P = Some P' ->
+    forall s0 s0' pi, G s0 -> agree_off (mon 0) s0 s0' ->
+      s0' (mon 0) [] = Some (VBool (holds false (mk_interp P s0 []) psi)) ->
+      holds false (mk_interp P s0 []) phi = false ->
+      valid_plan false P' s0' pi =
+      valid_plan false P s0 pi && sb_chk P phi psi (holds false (mk_interp P s0 []) psi) s0 pi.
+Proof.
+  intros smp sub0 mon phi psi P G H1 H2 H3 H4 H5 H6 H7 H8 H9 H10 H11 H12 H13 P1 H14 s0 s0' pi H15 H16 H17 H18.
+  exact (tcr_sb_plan smp sub0 mon phi psi P G H1 H2 H3 H4 H5 H6 H7 H8 H9 H10 H11 H12 H13 P1 H14 s0 s0' pi H15 H16 H17 H18).
+Qed.
+Print Assumptions C06_LA_tcr_sb_plan.
+
+Module TcrSb.
+  Definition bfd (f : N) : fdecl := {| fd_id := f; fd_sig := []; fd_ty := FBool |}.
+  Definition fl0 (f : N) : expr := EFluent f [].
+  Definition setf (f : N) (b : bool) : action :=
+    {| a_params := []; a_pre := [];
+       a_effs := [{| e_fl := f; e_args := []; e_val := EBool b; e_cond := EBool true; e_kind := KAssign; e_vars := [];
+                     e_isbool := true |}] |}.
+  (* fluents f (0), g (1); actions 0: f on, 1: g on; goal f; constraint sometime-before f g; everything false initially *)
+  Definition P0 : problem :=
+    {| p_objs := []; p_ifun := []; p_fluents := [bfd 0; bfd 1];
+       p_actions := [(0%N, setf 0 true); (1%N, setf 1 true)]; p_goals := [fl0 0]; p_invs := [] |}.
+  Definition idf (e : expr) : expr := e.
+  Definition mon0 (k : nat) : N := 9%N.
+  Definition s0 : state := fun f _ => Some (VBool false).
+  Definition s0' : state := fun f a => if (f =? 9)%N then Some (VBool false) else s0 f a.
+  Definition P0' : problem := match tcr_compile idf idf mon0 [ESometimeBefore (fl0 0) (fl0 1)] P0 with Some x => x | None => P0 end.
+  Definition G0 (s : state) : Prop := gdef s (fl0 0) = true /\ gdef s (fl0 1) = true.
+End TcrSb.
+
+Example C06_LA_tcr_sb_plan_nonvacuous :
+  (forall pi, valid_plan false TcrSb.P0' TcrSb.s0' pi =
+              valid_plan false TcrSb.P0 TcrSb.s0 pi && sb_chk TcrSb.P0 (TcrSb.fl0 0) (TcrSb.fl0 1) false TcrSb.s0 pi) /\
+  valid_plan false TcrSb.P0 TcrSb.s0 [(0%N, [])] = true /\
+  valid_plan false TcrSb.P0' TcrSb.s0' [(0%N, [])] = false /\
+  valid_plan false TcrSb.P0' TcrSb.s0' [(1%N, []); (0%N, [])] = true.
+Proof.
+  split; [|repeat split; vm_compute; reflexivity].
+  intros pi.
+  assert (Hact : forall aid a, lookup_action TcrSb.P0 aid = Some a -> a = TcrSb.setf 0 true \/ a = TcrSb.setf 1 true).
+  { intros aid a H. unfold lookup_action in H. cbn [TcrSb.P0 p_actions lookupN] in H.
+    destruct (aid =? 0)%N; [inversion H; auto|]. destruct (aid =? 1)%N; [inversion H; auto | discriminate]. }
+  change false with (holds false (mk_interp TcrSb.P0 TcrSb.s0 []) (TcrSb.fl0 1)) at 1.
+  apply (C06_LA_tcr_sb_plan TcrSb.idf TcrSb.idf TcrSb.mon0 (TcrSb.fl0 0) (TcrSb.fl0 1) TcrSb.P0 TcrSb.G0).
+  - intros e I. reflexivity.
+  - unfold unique_ids. cbn. repeat constructor; cbn; intuition discriminate.
+  - reflexivity.
+  - reflexivity.
+  - reflexivity.
+  - reflexivity.
+  - reflexivity.
+  - vm_compute. reflexivity.
+  - vm_compute. reflexivity.
+  - intros s aid a args t [Gs1 Gs2] Hlk Hst.
+    assert (Hga : gaction TcrSb.P0 a = true) by (destruct (Hact aid a Hlk) as [-> | ->]; reflexivity).
+    assert (Hrg : reg_ok TcrSb.P0 s a = true) by (destruct (Hact aid a Hlk) as [-> | ->]; reflexivity).
+    destruct (regression_step TcrSb.P0 s a args t (TcrSb.fl0 0) Hga Hrg Hst eq_refl eq_refl Gs1) as (_ & _ & D1).
+    destruct (regression_step TcrSb.P0 s a args t (TcrSb.fl0 1) Hga Hrg Hst eq_refl eq_refl Gs2) as (_ & _ & D2).
+    unfold TcrSb.G0. unfold isB in D1, D2. cbn in D1, D2. cbn. split; assumption.
+  - intros s aid a _ Hlk. destruct (Hact aid a Hlk) as [-> | ->]; reflexivity.
+  - intros s [Gs _]. exact Gs.
+  - intros s [_ Gs]. exact Gs.
+  - reflexivity.
+  - split; reflexivity.
+  - intros f x Hf. unfold TcrSb.s0'. replace (f =? 9)%N with false; [reflexivity|]. symmetry. apply N.eqb_neq. exact Hf.
+  - reflexivity.
+  - reflexivity.
 Qed.
 
 (* ---------------------------------------------------------------- the open part *)
